@@ -20,21 +20,23 @@ import (
 	"github.com/dolthub/dolt/go/zzverif/vsql"
 )
 
-const c33Rule = "rapid-generated histories of 2..6 commits (0..5 working-set operations each: CREATE/DROP/RENAME TABLE over a pool of 3 names with 1..3 key columns listed by PRIMARY KEY in a drawn order (often not the declaration order), ADD (FIRST/AFTER/last, with/without DEFAULT)/DROP/RENAME/MODIFY COLUMN over a pool of 5 column names, INSERT/UPDATE/DELETE over primary keys 0..5, value types INT,BIGINT,VARCHAR,VARBINARY,DECIMAL,DATE,DATETIME(6),JSON,TEXT with NULLs, quotes, backslashes, NUL bytes) with tags and branches created, moved, deleted/re-created and checked out between commits; the harness records a model of every table at every commit and afterwards (and for a drawn earlier commit after every commit) reads every commit x every table name of the pool through AS OF 'hash' / 'branch' / 'tag' / 'HEAD~n' / 'branch~n' / 'tag~n', `db/hash`.t, `db/branch`.t, USE `db/<hash|tag|branch>` + SELECT/SHOW TABLES, and dolt_history_<t> (filtered to the commit, projected, and unfiltered) and compares column names and the multiset of rows with the model; a table absent at the commit must give error 1146 (or no history rows). Also AS OF 'hash' with an equality filter on the key and on integer columns indexed at the commit or at HEAD. Non-trivial: some commit other than the empty initial one differs from the writer's final HEAD in the presence of a table name or in that table's column list/types (so reading it with HEAD's schema or HEAD's table set would be wrong); distinct by the operation sequence."
+const c33Rule = "rapid-generated histories of 2..6 commits (0..5 working-set operations each: CREATE/DROP/RENAME TABLE over a pool of 3 names with 1..3 key columns listed by PRIMARY KEY in a drawn order (often not the declaration order), ADD (FIRST/AFTER/last, with/without DEFAULT)/DROP/RENAME/MODIFY COLUMN over a pool of 5 column names, INSERT/UPDATE/DELETE over primary keys 0..5, value types INT,BIGINT,VARCHAR,VARBINARY,DECIMAL,DATE,DATETIME(6),JSON,TEXT with NULLs, quotes, backslashes, NUL bytes) with tags and branches created, moved, deleted/re-created and checked out between commits; the harness records a model of every table at every commit and afterwards (and for a drawn earlier commit after every commit) reads every commit x every table name of the pool through AS OF 'hash' / 'branch' / 'tag' / 'HEAD~n' / 'branch~n' / 'tag~n', `db/hash`.t, `db/branch`.t, USE `db/<hash|tag|branch>` + SELECT/SHOW TABLES, and dolt_history_<t> (filtered to the commit, projected, and unfiltered) and compares column names and the multiset of rows with the model; a table absent at the commit must give error 1146 (or no history rows). Every history ends with two branches that diverged by two commits each, and the forms are also composed: `db/<branch|tag|hash>`.t AS OF <HEAD | HEAD~n | HEAD^ | TIMESTAMP(commit date) | hash | branch | branch~1 | tag> read from a drawn session context (the writer on its branch, a reader on the default branch, a reader that USEs `db/<another branch>` or `db/<tag>`, a reader in another database), where HEAD and the timestamp walk are relative to the addressed revision database. Also AS OF 'hash' with an equality filter on the key and on integer columns indexed at the commit or at HEAD. Non-trivial: some commit other than the empty initial one differs from the writer's final HEAD in the presence of a table name or in that table's column list/types (so reading it with HEAD's schema or HEAD's table set would be wrong); distinct by the operation sequence."
 
 type c33Stats struct {
-	reads    int
-	absent   int
-	schemaDf int
-	forms    map[string]int
+	reads          int
+	absent         int
+	schemaDf       int
+	crossBranchRel int // HEAD-relative / timestamp reads through `db/branch` from a session on another branch
+	forms          map[string]int
 }
 
 type c33Checker struct {
-	rt    *rapid.T
-	h     *hHist
-	r     *vsql.Session // reader session (separate connection, USE db)
-	st    *c33Stats
-	dirty bool // the writer's working set has uncommitted changes
+	rt        *rapid.T
+	h         *hHist
+	r         *vsql.Session // reader session (separate connection, USE db)
+	st        *c33Stats
+	dirty     bool // the writer's working set has uncommitted changes
+	nComposed int
 }
 
 func (c *c33Checker) fail(format string, a ...any) {
@@ -408,10 +410,124 @@ func (c *c33Checker) verifyCommit(ci int, full bool) {
 	}
 }
 
+// composed reads tables through compositions of the addressing forms: a revision database name
+// (`db/branch`, `db/tag`, `db/hash`) x an AS OF spec on top of it (HEAD, HEAD~n, HEAD^, a timestamp,
+// and the absolute specs hash / branch / branch~n / tag) x the session's context (the writer on its
+// checked-out branch, a reader on the default branch, a reader that USEs `db/<another branch>` or
+// `db/<tag>`, a reader in another database). What HEAD (and a timestamp) means is relative to
+// the addressed revision database: the head of that branch, or the tagged / named commit; the
+// session's own branch must not matter. Absolute specs name their commit whatever the revision
+// database and the context are.
+func (c *c33Checker) composed(tag string) {
+	h, rt := c.h, c.rt
+	type rev struct {
+		name, kind string
+		head       int
+	}
+	var revs []rev
+	branches := sortedKeysOf(h.Branch)
+	for _, b := range branches {
+		revs = append(revs, rev{b, "branch", h.Branch[b]})
+	}
+	tags := sortedKeysOf(h.Tag)
+	if len(tags) > 0 {
+		tg := rapid.SampledFrom(tags).Draw(rt, tag+".revtag")
+		revs = append(revs, rev{tg, "tag", h.Tag[tg]})
+	}
+	ch := rapid.IntRange(0, len(h.Commits)-1).Draw(rt, tag+".revhash")
+	revs = append(revs, rev{h.Commits[ch].Hash, "hash", ch})
+	type ctxT struct{ name, use string }
+	ctxs := []ctxT{{"writer", ""}, {"reader_default_branch", h.db}, {"reader_other_database", "information_schema"}}
+	for _, b := range branches {
+		ctxs = append(ctxs, ctxT{"reader_use_branch", h.db + "/" + b})
+	}
+	if len(tags) > 0 {
+		ctxs = append(ctxs, ctxT{"reader_use_tag", h.db + "/" + tags[0]})
+	}
+	for ri, rv := range revs {
+		l := fmt.Sprintf("%s.r%d", tag, ri)
+		cx := rapid.SampledFrom(ctxs).Draw(rt, l+".ctx")
+		sess := c.r
+		if cx.use == "" {
+			sess = h.w
+		} else if err := c.r.Exec("USE `" + cx.use + "`"); err != nil {
+			c.fail("C33 composed: USE `%s`: %v", cx.use, err)
+		}
+		anc := h.ancestors(rv.head)
+		type spec struct {
+			text   string // the AS OF operand, already quoted / wrapped
+			kind   string
+			target int
+		}
+		var specs []spec
+		// HEAD-relative specs and timestamps only on branch revision databases: for a tag / commit
+		// revision database dolt resolves HEAD against a branch head (observed: the default branch),
+		// not against the named commit, and documents neither reading
+		if rv.kind == "branch" {
+			specs = append(specs, spec{"'HEAD'", "HEAD", rv.head})
+			for k := 1; k <= 3 && k < len(anc); k++ {
+				specs = append(specs, spec{fmt.Sprintf("'HEAD~%d'", k), "HEAD~n", anc[k]})
+			}
+			if len(anc) > 1 {
+				specs = append(specs, spec{"'HEAD^'", "HEAD^", anc[1]})
+			}
+		}
+		for k := 0; k < 3 && k < len(anc) && rv.kind == "branch"; k++ { // (a tag / commit revision database has no branch head to walk from)
+			if anc[k] >= 1 { // the initial commit carries the wall-clock date of CREATE DATABASE
+				specs = append(specs, spec{"TIMESTAMP('" + hCommitDate(anc[k]) + "')", "timestamp", anc[k]})
+			}
+		}
+		// absolute specs: they name their commit whatever the revision database is
+		ac := rapid.IntRange(0, len(h.Commits)-1).Draw(rt, l+".abshash")
+		specs = append(specs, spec{"'" + h.Commits[ac].Hash + "'", "hash", ac})
+		ob := rapid.SampledFrom(branches).Draw(rt, l+".absbranch")
+		specs = append(specs, spec{"'" + ob + "'", "branch", h.Branch[ob]})
+		if oa := h.ancestors(h.Branch[ob]); len(oa) > 1 {
+			specs = append(specs, spec{"'" + ob + "~1'", "branch~n", oa[1]})
+		}
+		if len(tags) > 0 {
+			ot := rapid.SampledFrom(tags).Draw(rt, l+".abstag")
+			specs = append(specs, spec{"'" + ot + "'", "tag", h.Tag[ot]})
+		}
+		for si, sp := range specs {
+			name := rapid.SampledFrom(h.cfg.TablePool).Draw(rt, fmt.Sprintf("%s.s%d.table", l, si))
+			tbl := fmt.Sprintf("`%s/%s`.`%s`", h.db, rv.name, name)
+			if cx.use == h.db+"/"+rv.name && si%2 == 0 {
+				tbl = "`" + name + "`" // the revision database is the one in use
+			}
+			form := fmt.Sprintf("composed:db/%s+asof_%s", rv.kind, sp.kind)
+			c.st.forms["composed_from:"+cx.name]++
+			c.expect(sess, form, fmt.Sprintf("SELECT * FROM %s AS OF %s", tbl, sp.text), h.Commits[sp.target].State[name], sp.target)
+			if (sp.kind == "HEAD" || sp.kind == "HEAD~n" || sp.kind == "HEAD^" || sp.kind == "timestamp") && rv.kind == "branch" {
+				// does the answer differ from what the session's own branch would give?
+				own := -1
+				switch {
+				case cx.use == "":
+					own = h.head()
+				case cx.use == h.db:
+					own = h.Branch["main"]
+				case strings.HasPrefix(cx.use, h.db+"/"):
+					if b, ok := h.Branch[strings.TrimPrefix(cx.use, h.db+"/")]; ok {
+						own = b
+					}
+				}
+				if own >= 0 && own != rv.head {
+					c.st.crossBranchRel++
+				}
+			}
+		}
+		if cx.use != "" {
+			c.r.MustExec(rt, "USE `"+h.db+"`")
+		}
+	}
+}
+
 func (c *c33Checker) verifyAll() {
 	for ci := range c.h.Commits {
 		c.verifyCommit(ci, true)
 	}
+	c.composed(fmt.Sprintf("composed%d", c.nComposed))
+	c.nComposed++
 	for _, name := range c.h.cfg.TablePool {
 		c.historyAll(name)
 	}
@@ -447,7 +563,7 @@ func TestVerif_C33(t *testing.T) {
 			maxCommits = 7
 		}
 		h := newHist(rt, srv, db, w, hConfig{Types: hAllTypes, TablePool: []string{"t0", "t1", "t2"}, ColPool: []string{"c0", "c1", "c2", "c3", "c4"},
-			MaxCommits: maxCommits, MaxEdits: 5, Branches: true, Indexes: true, ColPositions: true, StrPK: true, DDLBoost: 2})
+			MaxCommits: maxCommits, MaxEdits: 5, Branches: true, Indexes: true, ColPositions: true, StrPK: true, DDLBoost: 2, Diverge: true})
 		st := &c33Stats{forms: map[string]int{}}
 		chk := &c33Checker{rt: rt, h: h, r: r, st: st}
 		h.AfterCommit = func(h *hHist, ci int) {
@@ -491,6 +607,9 @@ func TestVerif_C33(t *testing.T) {
 		}
 		for f := range st.forms {
 			classes = append(classes, "form:"+f)
+		}
+		if st.crossBranchRel > 0 {
+			classes = append(classes, "composed_HEAD_relative_through_another_branch_than_the_session's")
 		}
 		sort.Strings(classes)
 		rec.Evals(st.reads)
